@@ -246,6 +246,46 @@ def test_invalid(inp):
     return None
 
 
+# --- overall geometry of meshes that are not a vertex-for-vertex coverage -----------------------------------------------------------
+
+
+def gen_union(tier, seed):
+    yield {'mesh': 'hanging node'}
+    yield {'mesh': 'overlapping faces'}
+    yield {'mesh': 'two islands'}
+
+
+def test_union(inp):
+    """dataset.ems.geometry is the union of the cell polygons, also when neighbouring faces do not share whole edges node for node"""
+    if inp['mesh'] == 'hanging node':
+        # a wide quadrilateral under two narrow ones: node 4 = (1, 1) lies on the wide cell's top edge without being one of its nodes
+        nx = [0.0, 2.0, 2.0, 0.0, 1.0, 0.0, 1.0, 2.0]
+        ny = [0.0, 0.0, 1.0, 1.0, 1.0, 2.0, 2.0, 2.0]
+        faces = [[0, 1, 2, 3], [3, 4, 6, 5], [4, 2, 7, 6]]
+    elif inp['mesh'] == 'overlapping faces':
+        nx = [0.0, 2.0, 2.0, 0.0, 1.0, 3.0, 3.0, 1.0]
+        ny = [0.0, 0.0, 2.0, 2.0, 1.0, 1.0, 3.0, 3.0]
+        faces = [[0, 1, 2, 3], [4, 5, 6, 7]]
+    else:
+        nx = [0.0, 1.0, 1.0, 0.0, 5.0, 6.0, 6.0, 5.0]
+        ny = [0.0, 0.0, 1.0, 1.0, 0.0, 0.0, 1.0, 1.0]
+        faces = [[0, 1, 2, 3], [4, 5, 6, 7]]
+    nx, ny = [100 + x for x in nx], [-10 + y for y in ny]
+    ds = datasets.ugrid(mesh=(nx, ny, faces), extra=False)
+    polys = must(lambda: ds.ems.polygons, 'polygons')
+    present = [p for p in polys if p is not None]
+    union = shapely.unary_union(present)
+    g = must(lambda: ds.ems.geometry, 'geometry')
+    if not g.is_valid:
+        return f'the overall geometry is not a valid geometry ({shapely.is_valid_reason(g)})'
+    if abs(g.area - union.area) > 1e-12 or not g.equals(union):
+        return f'the overall geometry (area {g.area}, {g.geom_type}) is not the union of the cell polygons (area {union.area}, {union.geom_type})'
+    bb = tuple(float(v) for v in ds.ems.bounds)
+    if not numpy.allclose(bb, union.bounds, rtol=0, atol=1e-12):
+        return f'bounds {bb} differ from the bounding box of the polygons {union.bounds}'
+    return None
+
+
 CLASS_OF = {'cf1d': 'CFGrid', 'cf2d': 'CFGrid', 'shoc_simple': 'CFGrid', 'shoc_standard': 'ArakawaC', 'ugrid': 'UGrid'}
 
 
@@ -264,6 +304,9 @@ def key_poly(inp, detail):
 
 
 CHECKS = [
+    Check('union', gen_union, test_union, key=lambda i, d: f"union:{i['mesh']}",
+          space='meshes whose faces are not a vertex-for-vertex coverage (a hanging node, overlapping faces, two islands): geometry = union of the polygons, valid',
+          bound='3 meshes'),
     Check('polygons', gen, test, key=key_poly,
           space='28 datasets: 1-D CF axes ascending / descending / non-uniform with and without stored bounds (variables or coordinates), '
                 'curvilinear 2-D grids with / without bounds and missing cells, SHOC simple / standard incl. masked nodes, meshes '
